@@ -284,6 +284,8 @@ func ruleQuerySemantics(w *World, r *Report) {
 	r.Rule("QSEM-RESULT", "every success return of a combinator's Exec returns what was accumulated: its result depends on the appends (or, for `and`/`empty`, on the sub-results / the input)", 5)
 	r.Rule("QSEM-PARSE", "every implementation of core.Query is produced somewhere below core.ParseQuery (a converted value of that type reaches the Query interface in ParseQuery or a function it calls): a combinator that cannot be parsed does not exist for rules", 5)
 
+	r.Rule("QSEM-BIND", "Bindings.Bind substitutes structurally: every value it puts into the map or the array it builds (map update, appended element, indexed store) is, on every path, the result of Bind applied to the corresponding element — an element copied as it is keeps its variables, so a variable that is already bound deeper in the pattern is searched as a free variable and re-bound", 2)
+	q.ruleBind()
 	q.ruleAnd()
 	q.ruleOr()
 	q.ruleNot()
@@ -291,6 +293,67 @@ func ruleQuerySemantics(w *World, r *Report) {
 	q.ruleCode()
 	q.ruleEmpty()
 	q.ruleParse()
+}
+
+// ---- bind -----------------------------------------------------------------------------------------
+
+func (q *qsem) ruleBind() {
+	fn := q.w.Method("core", "Bindings", "Bind")
+	var isBound func(v ssa.Value, d int) bool
+	isBound = func(v ssa.Value, d int) bool {
+		if d > 8 {
+			return false
+		}
+		switch x := v.(type) {
+		case *ssa.Call:
+			return x.Common().StaticCallee() == fn
+		case *ssa.Phi:
+			for _, e := range x.Edges {
+				if !isBound(e, d+1) {
+					return false
+				}
+			}
+			return len(x.Edges) > 0
+		case *ssa.MakeInterface:
+			return isBound(x.X, d+1)
+		case *ssa.ChangeInterface:
+			return isBound(x.X, d+1)
+		}
+		return false
+	}
+	n := 0
+	check := func(in ssa.Instruction, what string, v ssa.Value) {
+		n++
+		key := "fn=" + fname(fn) + " " + what
+		if isBound(v, 0) {
+			q.r.ok("QSEM-BIND", key, q.w.PosOf(in), "what is stored is the recursively bound element")
+		} else {
+			q.r.violation("QSEM-BIND", key, q.w.PosOf(in), "an element can be put into the bound pattern without having been bound itself (on some path it is not the result of the recursive Bind call): variables below it stay free")
+		}
+	}
+	allInstrs(fn, func(in ssa.Instruction) {
+		switch x := in.(type) {
+		case *ssa.MapUpdate:
+			if _, ok := x.Map.(*ssa.MakeMap); ok {
+				check(in, "map-entry", x.Value)
+			}
+		case *ssa.Call:
+			if c, ok := isBuiltinCall(in, "append"); ok {
+				for _, e := range appendedElems(c) {
+					check(in, "array-element", e)
+				}
+			}
+		case *ssa.Store:
+			if ia, ok := x.Addr.(*ssa.IndexAddr); ok {
+				if _, isMk := ia.X.(*ssa.MakeSlice); isMk {
+					check(in, "array-element", x.Val)
+				}
+			}
+		}
+	})
+	if n == 0 {
+		q.r.exempt("QSEM-BIND", "fn="+fname(fn), q.w.Pos(fn.Pos()), "Bind builds no map or array in this function: shape not recognised, not decided")
+	}
 }
 
 // ---- and ------------------------------------------------------------------------------------------
